@@ -107,7 +107,11 @@ pub fn apply(ctx: &Ctx) -> Report {
     for _ in 0..n {
         cases.push(c12::gen_case(&mut r));
     }
-    for case in cases {
+    for (case_no, case) in cases.into_iter().enumerate() {
+        // the declared ledger language of the validator: all three (the hash prefix and the language of
+        // the result must be the validator's own, whatever is applied)
+        let pv = [PlutusVersion::V3, PlutusVersion::V2, PlutusVersion::V1][case_no % 3];
+        let pv_no = 3 - (case_no % 3);
         let src = source(&case);
         let mut proj = aik::Proj::new();
         let module = match proj.check(&src) {
@@ -123,7 +127,7 @@ pub fn apply(ctx: &Ctx) -> Report {
         let modules = CheckedModules::singleton(module);
         let (m, def) = modules.validators().next().expect("validator");
         let mut generator = proj.new_generator(aiken_lang::ast::Tracing::silent());
-        let vs = match guarded(AssertUnwindSafe(|| Validator::from_checked_module(&modules, &mut generator, m, def, &PlutusVersion::default()))) {
+        let vs = match guarded(AssertUnwindSafe(|| Validator::from_checked_module(&modules, &mut generator, m, def, &pv))) {
             Ok(Ok(vs)) => vs,
             Ok(Err(_)) => {
                 rep.count("blueprint-error");
@@ -147,7 +151,7 @@ pub fn apply(ctx: &Ctx) -> Report {
                 title: "test/project".into(),
                 description: None,
                 version: "0.0.0".into(),
-                plutus_version: PlutusVersion::default(),
+                plutus_version: pv,
                 compiler: None,
                 license: None,
             },
@@ -220,7 +224,7 @@ pub fn apply(ctx: &Ctx) -> Report {
             "applyp 1 {} {} {} {} {}",
             tygen::decls_wire(&case.decls),
             case.params_wire(),
-            3,
+            pv_no,
             wire::term(&original.term),
             ops_wire.join(" ")
         ));
